@@ -130,6 +130,15 @@ impl Reference {
                 .zip(r.iter())
                 .map(|(a, b)| Rec::new(mix_pair(Some(a.v), Some(b.v))))
                 .collect(),
+            Combine::Join(_, JoinAlgo::KeyedAfterAgg, k) => {
+                let mut counts: HashMap<i64, i64> = HashMap::new();
+                for a in &l {
+                    *counts.entry(Self::key(a.v, k)).or_default() += 1;
+                }
+                r.iter()
+                    .filter_map(|b| counts.get(&Self::key(b.v, k)).map(|c| Rec::new(mix_pair(Some(*c), Some(b.v)))))
+                    .collect()
+            }
             Combine::Join(kind, algo, k) => {
                 // the broadcast-right and keyed algorithms do not offer every variant
                 let kind = match (algo, kind) {
